@@ -46,6 +46,12 @@ Definition show_outcome {A} (sh : A -> list Z) (x : outcome A) : list Z :=
   | Panic => [2]
   end.
 
+(* error classes of cameleon_device::u3v::Error *)
+Definition E_INVALID_PACKET : Z := 10.
+Definition E_BUFFER_IO : Z := 11.
+Definition E_LIBUSB : Z := 12.
+Definition E_INVALID_DEVICE : Z := 13.
+
 (* Fixed-width integer helpers. *)
 Definition wrapu (w z : Z) : Z := z mod 2 ^ w.
 Definition sw (w z : Z) : Z := (z + 2 ^ (w - 1)) mod 2 ^ w - 2 ^ (w - 1).
